@@ -104,9 +104,12 @@ def allow_stale(rm: RunModel):
         # the integration step reads the state left by the previous instant (by design)
         if 'integrate' in ta:
             return True
-        # the lock decision reads the duty cycle in force and the previous net torque (by design)
+        # the lock decision reads the duty cycle in force and the previous net torque (by design); the motor
+        # speed it reads must be the current one, only the uniform clamp may overwrite it afterwards
         if any(t.startswith('selfcall:') for t in ta) and not a.writes:
-            return True
+            if attr in ('pwm', 'torque'):
+                return True
+            return 'clamp' in tb
         # the uniform zero clamp may follow the propagation it overrides (it preserves x_i = r * x_{i+1})
         if 'clamp' in tb and (any(t.startswith('kin:') for t in ta)):
             return True
